@@ -38,7 +38,7 @@ theorem popcount_le (x : BitVec 64) : popcount x ≤ 64 := by
 theorem popcount_word_portable_eq_cpop (x : BitVec 64) :
     Gen.popcount_word_portable x = x.cpop.setWidth 32 := by
   unfold Gen.popcount_word_portable
-  bv_decide
+  bv_decide (timeout := 300)
 
 theorem popcountPortable_eq (x : BitVec 64) : popcountPortable x = popcount x := by
   unfold popcountPortable
@@ -147,7 +147,7 @@ theorem tz_eq (x : BitVec 64) : tz x = (selectB true (wordBits x) 0).getD 64 := 
 
 theorem clear_lowest (x : BitVec 64) (hx : x ≠ 0) :
     x &&& (x - 1) = x &&& ~~~(1#64 <<< x.ctz) := by
-  bv_decide
+  bv_decide (timeout := 300)
 
 theorem wordBits_clear_lowest (x : BitVec 64) (hx : x ≠ 0) :
     wordBits (x &&& (x - 1)) = (wordBits x).set (tz x) false := by
